@@ -1937,13 +1937,22 @@ fn decode_attributes(reader: &XReader, attr: &mut Attributes) -> AttributeMap {
     .collect()
 }
 
+/// A document without a \<scxml\> root element defines no state machine.
+fn fsm_of(rs: ReaderState) -> Result<Box<Fsm>, String> {
+    if rs.fsm.pseudo_root == 0 {
+        Err("No <scxml> root element found".to_string())
+    } else {
+        Ok(rs.fsm)
+    }
+}
+
 /// Read and parse the FSM from an XML file
 pub fn parse_from_xml_file(file: &Path, include_paths: &[PathBuf]) -> Result<Box<Fsm>, String> {
     let mut rs = ReaderState::new();
     rs.include_paths = Vec::from(include_paths);
     let r = rs.process_file(file);
     match r {
-        Ok(_m) => Ok(rs.fsm),
+        Ok(_m) => fsm_of(rs),
         Err(e) => Err(e),
     }
 }
@@ -1965,7 +1974,7 @@ pub fn parse_from_uri(uri: String, include_paths: &[PathBuf]) -> Result<Box<Fsm>
                         rs.fsm.name,
                         end.as_millis() - start.as_millis()
                     );
-                    Ok(rs.fsm)
+                    fsm_of(rs)
                 }
                 Err(e) => Err(e),
             }
@@ -1980,7 +1989,7 @@ pub fn parse_from_xml(xml: String) -> Result<Box<Fsm>, String> {
     rs.content = xml;
     let r = rs.process();
     match r {
-        Ok(_m) => Ok(rs.fsm),
+        Ok(_m) => fsm_of(rs),
         Err(e) => Err(e),
     }
 }
@@ -1992,7 +2001,7 @@ pub fn parse_from_xml_with_includes(xml: String, include_paths: &[PathBuf]) -> R
     rs.content = xml;
     let r = rs.process();
     match r {
-        Ok(_m) => Ok(rs.fsm),
+        Ok(_m) => fsm_of(rs),
         Err(e) => Err(e),
     }
 }
